@@ -169,13 +169,21 @@ def record(prop, out, att, why):
             "why": why, "pred": att["pred"], "obs": att["obs"], "verdict": att.get("verdict")}
 
 
+_amemo = {}
+
+
 def run_adversarial(tier, repo=None):
     """C17: the same vectors on the adversarial class families, compared in lock-step with the plain class on the same base."""
     repo = repo or core.repo_path()
+    key = (tier, repo)
+    if key in _amemo:
+        return _amemo[key]
     rnd = random.Random(core.seed() + 17)
     adv = ["adv:%s:%s" % (b, base) for b in ("alwayseq", "nevereq", "falsy", "zerolen", "unhashable", "container", "ordering", "tripwire")
            for base in ("mixin", "light")]
     pairs = [(a.rsplit(":", 1)[1], a) for a in adv]
+    cross = [("adv:%s:mixin" % b, "adv:%s:light" % b) for b in ("alwayseq", "nevereq", "falsy")]     # C18 on classes with special methods
+    pairs += cross
     outcomes = []
     for c in configs(tier):
         if c["name"] not in ("ops-n4", "ops-n3x"):
@@ -186,7 +194,10 @@ def run_adversarial(tier, repo=None):
         sub = lines[rnd.randrange(k)::k]
         tot = _replay(sub, ["mixin", "light"] + adv, False, pairs, repo)
         tot.update(config=c, asrt=False, tlc=stats, families=["mixin", "light"] + adv, vectors=len(sub))
+        tot["cross_diff"] = [d for d in tot["lockstep_diff"] if tuple(d["pair"]) in cross]
+        tot["lockstep_diff"] = [d for d in tot["lockstep_diff"] if tuple(d["pair"]) not in cross]
         outcomes.append(tot)
+    _amemo[key] = outcomes
     return outcomes
 
 
@@ -206,3 +217,36 @@ def run_small(tier):
             T.require_ok(stats)
             out.append(stats)
     return out
+
+
+_qmemo = {}
+
+
+def run_quiet(tier, repo=None, procs=16):
+    """A pass without harness reads during the calls (stale derived data inside the library), judged without hook logs."""
+    repo = repo or core.repo_path()
+    if (tier, repo) in _qmemo:
+        return _qmemo[(tier, repo)]
+    c = configs(tier)[0]
+    stats = run_model(c)
+    lines = T.read_lines(stats["lines_path"])
+    k = 3 if tier == "quick" else 1
+    sub = lines[core.seed() % k::k]
+    with core.pool(ops_replay.worker_init, (repo, False), procs) as p:
+        size = max(50, min(2000, len(sub) // (procs * 4) + 1))
+        parts = p.map(ops_replay.replay_chunk_quiet, [(ch, ["mixin", "light", "node"]) for ch in core.chunks(sub, size)])
+    tot = {"n": sum(r["n"] for r in parts), "same": sum(r["same"] for r in parts), "attention": [a for r in parts for a in r["attention"]],
+           "config": c, "tlc": stats, "asrt": False}
+    events, index = [], {}
+    for ai, att in enumerate(tot["attention"][:2000]):
+        obs = dict(att["obs"])
+        obs["strict"] = not att["family"].endswith("light")
+        obs["asrt"] = False
+        obs["id"] = "q%d" % ai
+        events.append(judge.normalise(obs, obs["id"], haslog=False))
+        index[obs["id"]] = att
+    verdicts, _ = judge.judge_ops(events, tag="judge-ops-quiet")
+    for i, v in verdicts.items():
+        index[i]["verdict"] = {"violated": sorted(v["violated"]), "explained": v["explained"]}
+    _qmemo[(tier, repo)] = tot
+    return tot
